@@ -197,7 +197,7 @@ def status_xml(top='Success', second=None, message=None):
     def uri(x):
         return x if ':' in x else STATUS + x
     inner = '<samlp:StatusCode Value="%s"/>' % uri(second) if second else ''
-    msg = '<samlp:StatusMessage>%s</samlp:StatusMessage>' % escape(message) if message else ''
+    msg = ("<samlp:StatusMessage>%s</samlp:StatusMessage>" % escape(message) if message else "<samlp:StatusMessage/>") if message is not None else ""
     return '<samlp:Status><samlp:StatusCode Value="%s">%s</samlp:StatusCode>%s</samlp:Status>' % (uri(top), inner, msg)
 
 
